@@ -1,6 +1,7 @@
 package main
 
 import (
+	"os"
 	"bytes"
 	"crypto/sha256"
 	"encoding/binary"
@@ -383,7 +384,35 @@ func (w *world) challenge(node string, challenges int64) {
 	w.emit(map[string]interface{}{"ev": "Challenge", "node": node, "challenges": challenges})
 }
 
+// noiseBeforeEnd: off-chain activity between the last DeliverTx and EndBlock - CheckTx and app/simulate of a
+// (well signed, unchanged) stake message for every node record.  It is not a trace event: the EndBlock that
+// follows must still be explained from the last recorded state (a node-local cache filled here must not be
+// what EndBlock reads).
+func (w *world) noiseBeforeEnd() {
+	if w.tw == nil {
+		return
+	}
+	st := w.s.Project()
+	names := make([]string, 0, len(st.Val))
+	for n := range st.Val {
+		names = append(names, n)
+	}
+	sort.Strings(names)
+	for _, n := range names {
+		v := st.Val[n]
+		out := v.Output
+		if out == "" {
+			out = n
+		}
+		c1, c2 := w.s.Noise(w.buildTx(w.stakeTx(n, out, v.Tokens, v.Chains, v.URL, v.Delegators, n)))
+		if os.Getenv("VERIF_DEBUG_NOISE") != "" {
+			println("noise", n, c1, c2)
+		}
+	}
+}
+
 func (w *world) end() []abci.ValidatorUpdate {
+	w.noiseBeforeEnd()
 	res := w.s.EndBlock()
 	w.s.Commit()
 	w.lagSets = append(w.lagSets, copySet(w.s.ValSet))
